@@ -437,6 +437,7 @@ def run(repo: Repo, ctx) -> None:
            sample='_uint16_packer(ctx.uuid_to_pos[type_id])')
 
     _r5(repo, ctx)
+    _r6(repo, ctx)
 
 
 def _r5(repo: Repo, ctx) -> None:
@@ -513,3 +514,60 @@ def _r5(repo: Repo, ctx) -> None:
                f'{"flagged" if want else "not flagged"}: clients hide or '
                f'show the injected id / __tid__ elements by this flag',
                sh.loc, sample=f'{facts} -> implicit={want}')
+
+
+def _r6(repo: Repo, ctx) -> None:
+    """A length prefix counts the bytes of the payload that follows it."""
+    from ..model import inline_locals
+    ctx.floor('C14.R6', 2)
+    m = repo.module(MOD)
+
+    def is_len_prefix(e):
+        return isinstance(e, ast.Call) and (call_name(e) or '').startswith(
+            '_uint') and (call_name(e) or '').endswith('_packer') and \
+            len(e.args) == 1 and isinstance(e.args[0], ast.Call) and \
+            norm(e.args[0].func) == 'len' and len(e.args[0].args) == 1
+
+    n = 0
+    for f in repo._funcs_of(m):
+        # (1) prefix + payload in one expression
+        for b in ast.walk(f.node):
+            if isinstance(b, ast.BinOp) and isinstance(b.op, ast.Add) and \
+                    is_len_prefix(b.left):
+                n += 1
+                a = inline_locals(f.node, b.left.args[0].args[0])
+                pay = inline_locals(f.node, b.right)
+                ok = a == pay
+                ctx.saw(f)
+                ctx.ob('C14.R6', f'{f.name}:len-prefix=payload', ok,
+                       f'{f.name} prefixes `{pay[:40]}` with len({a[:30]}): '
+                       f'the reader consumes that many *bytes*; for '
+                       f'non-ASCII text the character count is smaller than '
+                       f'the encoded length, so every field after it is '
+                       f'misread', f.loc, sample=f'len({a[:30]})')
+        # (2) append(prefix) ; append(payload)
+        for blk in ast.walk(f.node):
+            body = getattr(blk, 'body', None)
+            if not isinstance(body, list):
+                continue
+            for s1, s2 in zip(body, body[1:]):
+                c1 = s1.value if isinstance(s1, ast.Expr) else None
+                c2 = s2.value if isinstance(s2, ast.Expr) else None
+                if not (isinstance(c1, ast.Call) and isinstance(
+                        c2, ast.Call) and isinstance(c1.func, ast.Attribute)
+                        and c1.func.attr == 'append' and norm(c1.func) ==
+                        norm(c2.func) and c1.args and c2.args
+                        and is_len_prefix(c1.args[0])
+                        and isinstance(c2.args[0], ast.Name)):
+                    continue
+                n += 1
+                a = norm(c1.args[0].args[0].args[0])
+                ok = a == c2.args[0].id
+                ctx.saw(f)
+                ctx.ob('C14.R6', f'{f.qualname.split(".")[-2]}.{f.name}:'
+                       f'len-prefix=payload@L{s1.lineno - f.node.lineno}',
+                       ok, f'{f.name} appends len({a}) and then '
+                       f'`{c2.args[0].id}`: prefix and payload disagree',
+                       f.loc, sample=f'len({a})')
+    if n < 2:
+        raise AnalysisError(f'C14.R6: only {n} length-prefixed payloads')
